@@ -160,6 +160,88 @@ theorem views_prefix_stable (n : Node) (h later : List Rec) (t : Nat)
   exact ⟨fun acc => hag.list t (Nat.le_refl _) acc, pledging_stable hag, removing_stable hag,
     threshold_stable hag, keys_stable hag, elect_stable hag, identity_stable hag⟩
 
+/-! ## the node as a state machine: loads and queries in any order
+
+`LoadConsensusNodes` replaces the loaded history; a query returns views and leaves the node as it
+is (the Go views keep no memo between calls — a memo that survives a load breaks exactly this). -/
+
+/-- one question: every view at once -/
+structure Ask where
+  ts : Nat
+  acc : Bool
+  final : Bool
+  ch : Chain
+  round : Nat
+  op : Nat
+  chainId : Nat
+
+/-- list with consensus indexes, pledging node, removal candidate, threshold, signer keys, elected
+    operator, chain identity -/
+def answer (n : Node) (q : Ask) :
+    List CNode × Option CNode × Option CNode × Nat × List (Nat × Nat) × Option Nat × Option CNode :=
+  (n.list q.ts q.acc, pledgingNode n q.ts, removingAt genConsts n q.ts,
+   consensusThreshold genConsts n q.ts q.final, consensusKeys genConsts n q.ch q.round q.ts,
+   electSnapshotNode genConsts n q.op q.ts, loadIdentity n q.chainId q.ts)
+
+inductive Op where
+  | load (recs : List Rec)
+  | query (q : Ask)
+
+/-- state transition of the long-lived node -/
+def step (n : Node) : Op → Node
+  | .load recs => n.load recs
+  | .query _ => n
+
+def runOps (n : Node) (ops : List Op) : Node := ops.foldl step n
+
+/-- the records of the most recent load, if any -/
+def lastLoad (ops : List Op) : Option (List Rec) :=
+  ops.foldl (fun cur op => match op with | .load recs => some recs | .query _ => cur) none
+
+theorem load_load (n : Node) (a b : List Rec) : (n.load a).load b = n.load b := rfl
+
+theorem runOps_eq (n : Node) (ops : List Op) :
+    runOps n ops = match lastLoad ops with | some recs => n.load recs | none => n := by
+  have gen : ∀ (ops : List Op) (cur : Option (List Rec)),
+      ops.foldl step (match cur with | some recs => n.load recs | none => n) =
+        match ops.foldl (fun cur op => match op with | .load recs => some recs | .query _ => cur) cur with
+        | some recs => n.load recs | none => n := by
+    intro ops
+    induction ops with
+    | nil => intro cur; rfl
+    | cons op rest ih =>
+      intro cur
+      simp only [List.foldl_cons]
+      cases op with
+      | load recs =>
+        have : step (match cur with | some recs => n.load recs | none => n) (Op.load recs) = n.load recs := by
+          cases cur <;> rfl
+        rw [this]
+        exact ih (some recs)
+      | query q =>
+        have : step (match cur with | some recs => n.load recs | none => n) (Op.query q) =
+            (match cur with | some recs => n.load recs | none => n) := rfl
+        rw [this]
+        exact ih cur
+  exact gen ops none
+
+/-- **query_order_irrelevant**: after any interleaving of loads and queries, every view the node
+    reports is the pure function of the most recently loaded records — the same as on a fresh node
+    loaded with those records and never asked anything before. -/
+theorem query_order_irrelevant (n : Node) (ops : List Op) (recs : List Rec) (h : lastLoad ops = some recs)
+    (q : Ask) : answer (runOps n ops) q = answer (n.load recs) q := by
+  rw [runOps_eq, h]
+
+/-- queries in between do not matter at all: dropping them gives the same node -/
+theorem queries_transparent (n : Node) (ops : List Op) :
+    runOps n ops = runOps n (ops.filter (fun op => match op with | .load _ => true | .query _ => false)) := by
+  induction ops generalizing n with
+  | nil => rfl
+  | cons op rest ih =>
+    cases op with
+    | load recs => simp only [runOps, List.foldl_cons, List.filter] at ih ⊢; exact ih (step n (Op.load recs))
+    | query q => simp only [runOps, List.foldl_cons, List.filter] at ih ⊢; exact ih n
+
 /-! ## custodian -/
 open Mixin.CustodianLookup
 
